@@ -1,19 +1,58 @@
 /*@UNIT
 {
-  "property": "C13",
-  "unit": "add",
-  "function": "pstm_add",
-  "source": "crypto/math/pstm.c",
-  "keep_bodies": ["s_pstm_add", "pstm_sub_s", "pstm_cmp_mag", "pstm_clamp"],
-  "replace": ["pstm_grow"],
-  "mode": "proof",
-  "why_proof": "every loop of the inlined s_pstm_add, pstm_sub_s, pstm_cmp_mag and pstm_clamp is closed by an in-place loop contract (hook H1): every digit count up to PSTM_MAX_SIZE; pstm_grow is replaced by its contract (enforced in unit grow)",
-  "loop_contracts": true,
-  "object_bits": 8,
-  "cases": [{"name": "distinct", "defs": []}, {"name": "alias_ca", "defs": ["ALIAS_CA=1"]}, {"name": "alias_cb", "defs": ["ALIAS_CB=1"], "tier": "thorough"},
-            {"name": "alias_ab", "defs": ["ALIAS_AB=1"], "tier": "thorough"}, {"name": "alias_all", "defs": ["ALIAS_ALL=1"], "tier": "thorough"}],
-  "native_replay": false,
-  "timeout": 900
+ "property": "C13",
+ "unit": "add",
+ "function": "pstm_add",
+ "source": "crypto/math/pstm.c",
+ "keep_bodies": [
+  "s_pstm_add",
+  "pstm_sub_s",
+  "pstm_cmp_mag",
+  "pstm_clamp"
+ ],
+ "replace": [
+  "pstm_grow"
+ ],
+ "mode": "proof",
+ "why_proof": "every loop of the inlined s_pstm_add, pstm_sub_s, pstm_cmp_mag and pstm_clamp is closed by an in-place loop contract (hook H1): every digit count up to PSTM_MAX_SIZE; pstm_grow is replaced by its contract (enforced in unit grow)",
+ "loop_contracts": true,
+ "object_bits": 8,
+ "cases": [
+  {
+   "name": "distinct",
+   "defs": []
+  },
+  {
+   "name": "alias_ca",
+   "defs": [
+    "ALIAS_CA=1"
+   ]
+  },
+  {
+   "name": "alias_cb",
+   "defs": [
+    "ALIAS_CB=1"
+   ],
+   "tier": "thorough"
+  },
+  {
+   "name": "alias_ab",
+   "defs": [
+    "ALIAS_AB=1"
+   ],
+   "tier": "thorough"
+  },
+  {
+   "name": "alias_all",
+   "defs": [
+    "ALIAS_ALL=1"
+   ],
+   "tier": "thorough"
+  }
+ ],
+ "native_replay": false,
+ "timeout": 900,
+ "tier": "thorough"
 }
 @*/
 /* C13.add  signed c = a + b for ALL digit counts and every aliasing of the operands: memory safety,
